@@ -281,3 +281,64 @@ func DrawBuiltOCSP(t *rapid.T) ([]byte, []string) {
 	}
 	return BuildOCSP(s), ops
 }
+
+// ReasonCodeCRLs: revocation lists whose entries carry *different* offending reason codes (unspecified 0, the
+// unassigned 7, the out-of-range 11 and 12, next to good ones) in ascending, descending and mixed serial-number
+// order, with duplicates of serials among them - whoever re-orders the entry list for itself, or stops at the
+// first offender, changes what the next reader finds first.
+func ReasonCodeCRLs() []Obj {
+	this := time.Date(2024, 3, 1, 12, 0, 0, 0, time.UTC)
+	next := this.Add(7 * 24 * time.Hour)
+	num := int64(7)
+	codes := []int{0, 7, 11, 1, 12, 5, 9, 10}
+	var out []Obj
+	for oi, order := range [][]int{{0, 1, 2, 3, 4, 5, 6, 7}, {7, 6, 5, 4, 3, 2, 1, 0}, {3, 0, 5, 1, 7, 2, 6, 4}, {1, 0}, {0, 1}, {2, 1, 0}, {4, 2}, {5, 5, 0, 7}} {
+		var es []CRLEntry
+		for k, i := range order {
+			r := codes[i]
+			es = append(es, CRLEntry{Serial: int64(0x2000 + 16*i), Date: this.Add(-time.Duration(k+1) * time.Hour), Reason: &r})
+		}
+		for form := 0; form < 2; form++ {
+			sp := CRLSpec{V2: true, ThisUpdate: this, NextUpdate: &next, Entries: es, CRLNumber: &num, AKI: true}
+			if form == 1 {
+				sp.Form = GenZ
+			}
+			out = append(out, Obj{Name: fmt.Sprintf("built:reason-codes-%d-%d", oi, form), Kind: CRL, DER: BuildCRL(sp)})
+		}
+	}
+	return out
+}
+
+// LargeCRLs: revocation lists of 17 ... 10000 entries (one more than the sizes somebody may pick as the point
+// where "large" begins), serial numbers descending or scattered, a reason code on every third entry, one
+// duplicated serial in the scattered ones.
+func LargeCRLs() []Obj {
+	this := time.Date(2024, 3, 1, 12, 0, 0, 0, time.UTC)
+	next := this.Add(7 * 24 * time.Hour)
+	num := int64(9)
+	var out []Obj
+	for _, n := range []int{17, 65, 257, 1025, 4097, 10000} {
+		for variant := 0; variant < 2; variant++ {
+			es := make([]CRLEntry, 0, n)
+			x := uint64(n*31 + variant)
+			for i := 0; i < n; i++ {
+				serial := int64(0x100000 + (n - i)) // descending
+				if variant == 1 {
+					x = x*6364136223846793005 + 1442695040888963407
+					serial = int64(0x100000 + (x>>33)%uint64(4*n))
+					if i == n-1 {
+						serial = es[0].Serial // a duplicate, far apart
+					}
+				}
+				e := CRLEntry{Serial: serial, Date: this.Add(-time.Duration(i%5000+1) * time.Minute)}
+				if i%3 == 0 {
+					r := []int{1, 3, 4, 5, 9}[i/3%5]
+					e.Reason = &r
+				}
+				es = append(es, e)
+			}
+			out = append(out, Obj{Name: fmt.Sprintf("built:large-crl-%d-%d", n, variant), Kind: CRL, DER: BuildCRL(CRLSpec{V2: true, ThisUpdate: this, NextUpdate: &next, Entries: es, CRLNumber: &num, AKI: true})})
+		}
+	}
+	return out
+}
